@@ -87,7 +87,21 @@ fn viol_json(v: &world::Violation) -> J {
 
 fn main() {
     let (cmd, m) = args_map();
-    std::panic::set_hook(Box::new(|_| {}));
+    // Panics raised by the crate under test or injected by the harness are part of the exploration and stay
+    // silent; a panic raised by harness code itself is a machinery error and must be visible.
+    std::panic::set_hook(Box::new(|info| {
+        if let Some(loc) = info.location() {
+            const HARNESS_FILES: &[&str] = &["main.rs", "world.rs", "world_ops.rs", "explore.rs", "alloc.rs", "crash.rs", "lens.rs", "ops.rs", "json.rs", "mini.rs", "policy.rs", "grid.rs", "containers.rs", "threads.rs", "fwd.rs", "chain.rs"];
+            let base = loc.file().rsplit('/').next().unwrap_or("");
+            if loc.file().starts_with("src/") && HARNESS_FILES.contains(&base) && !loc.file().contains("weak/") {
+                let p = info.payload();
+                let msg = p.downcast_ref::<&'static str>().map(|s| s.to_string()).or_else(|| p.downcast_ref::<String>().cloned()).unwrap_or_default();
+                if msg != "ccmc-injected-fault" && msg != "ccmc-closure-panic" && msg != "warm-up" {
+                    eprintln!("HARNESS-PANIC at {}:{}: {}", loc.file(), loc.line(), msg);
+                }
+            }
+        }
+    }));
     crash::install_handlers();
     match cmd.as_str() {
         "explore" => {
